@@ -154,6 +154,7 @@ func extMutexTryLock(fr *frame, a []value) value {
 		return false
 	}
 	m.locked = true
+	raceAcquire(a[0].(*value))
 	return true
 }
 
@@ -180,10 +181,12 @@ func extOnceDo(fr *frame, a []value) value {
 		block("sync.Once")
 	}
 	if st.done {
+		raceAcquire(st)
 		return nil
 	}
 	st.running = true
 	defer func() {
+		raceRelease(st)
 		st.running = false
 		st.done = true
 		keep := X.onceWaiters[:0]
@@ -224,6 +227,7 @@ func wgOf(addr *value) *wgState {
 
 func extWGAdd(fr *frame, a []value) value {
 	st := wgOf(a[0].(*value))
+	raceRelease(st)
 	st.n += concreteInt64(a[1])
 	if st.n < 0 {
 		panic(runtimePanic("sync: negative WaitGroup counter"))
@@ -243,6 +247,7 @@ func extWGWait(fr *frame, a []value) value {
 		st.waiters = append(st.waiters, sched.cur)
 		block("WaitGroup")
 	}
+	raceAcquire(st)
 	return nil
 }
 
@@ -281,6 +286,7 @@ func extPoolGet(fr *frame, a []value) value {
 		if k >= 0 {
 			it := ps.items[k]
 			ps.items = append(ps.items[:k:k], ps.items[k+1:]...)
+			raceAcquire(poolItemKey{it.(iface).v})
 			return it
 		}
 	}
@@ -320,6 +326,7 @@ func extPoolPut(fr *frame, a []value) value {
 	if !X.NoPoolHavoc {
 		havocPooled(it)
 	}
+	raceRelease(poolItemKey{it.v})
 	ps.items = append(ps.items, it)
 	yield()
 	return nil
@@ -356,17 +363,31 @@ func havocPooled(it iface) {
 
 // ---- sync/atomic ---------------------------------------------------------------------------
 
-func extAtomicLoad(fr *frame, a []value) value  { yield(); return *(a[0].(*value)) }
-func extAtomicStore(fr *frame, a []value) value { yield(); *(a[0].(*value)) = a[1]; return nil }
+func extAtomicLoad(fr *frame, a []value) value {
+	yield()
+	raceAcquire(a[0].(*value))
+	return *(a[0].(*value))
+}
+func extAtomicStore(fr *frame, a []value) value {
+	yield()
+	raceAcquire(a[0].(*value))
+	raceRelease(a[0].(*value))
+	*(a[0].(*value)) = a[1]
+	return nil
+}
 func extAtomicAdd(fr *frame, a []value) value {
 	yield()
 	p := a[0].(*value)
+	raceAcquire(p)
+	raceRelease(p)
 	*p = binop(token.ADD, nil, *p, a[1])
 	return *p
 }
 func extAtomicCAS(fr *frame, a []value) value {
 	yield()
 	p := a[0].(*value)
+	raceAcquire(p)
+	raceRelease(p)
 	if truth(binop(token.EQL, types.Typ[types.Int64], *p, a[1])) {
 		*p = a[2]
 		return true
